@@ -30,6 +30,7 @@ func init() {
 			"oracle refdawg: match predicates over BYTES (pattern: equal length, every non-blank position equal; anagram: equal length, every non-blank letter at least as often in the word; validated against the permutation definition) applied to the sorted list",
 			"no searcher at all = every word (the intersection over an empty family)",
 			"the Dawgs are built with dawg.New; a set that cannot be built is C12's business and is skipped here (counted)",
+			"the byte slices returned by Search belong to the caller: every result is overwritten after it has been judged, and the further searches, the node dump and the lookups judge that the Dawg shares no memory with them",
 			"unchanged Dawg = identical node dump (verif accessor) and identical Lookup results before and after",
 			"a Search may be started from inside a Searcher callback of a running Search on the same Dawg (the Dawg is read-only during a search, nothing in the documentation forbids it); both must behave as if run alone",
 			"user-defined searchers are pure functions of the letters stepped so far; their reference predicates are in the harness",
@@ -38,7 +39,7 @@ func init() {
 		MinEvaluations: map[string]int{"quick": 5000000, "thorough": 30000000},
 		MinNontrivial:  map[string]int{"quick": 1000000, "thorough": 5000000},
 		RequiredObs: []string{"searches:pattern", "searches:anagram", "searches:pattern&anagram", "searches:no-searcher", "searches_with_reused_searchers", "searches_on_a_second_dawg",
-			"queries:blank_is_a_letter_of_the_set", "queries:letter_outside_the_set", "queries:anagram_with_repeated_letter", "queries:all_blank", "queries:empty", "dawg_unchanged_checks", "spy:balanced_step_backstep", "results:nonempty", "results:empty",
+			"queries:blank_is_a_letter_of_the_set", "queries:letter_outside_the_set", "queries:anagram_with_repeated_letter", "queries:all_blank", "queries:empty", "dawg_unchanged_checks", "spy:balanced_step_backstep", "results:nonempty", "results:empty", "results_overwritten_by_the_caller",
 			"protocol_traces_checked", "custom:user_searchers_only", "custom:user_and_library_searchers", "nested:from_Chosen_on_the_same_dawg", "nested:from_AllowWord_on_the_same_dawg", "nested:from_Chosen_on_another_dawg", "nested:from_AllowWord_on_another_dawg", "nested:inner_searches", "cold_warm_comparisons"},
 	})
 }
@@ -152,6 +153,51 @@ func observeQuery(c *engine.Ctx, set *refdawg.Set, qs []refdawg.Query, nres int)
 			}
 		}
 	}
+}
+
+// overwriteResults: the words returned by Search are the caller's.  It first
+// overwrites one of them and checks that the others did not change (results
+// sharing memory with each other), then overwrites all of them; that the Dawg
+// does not share memory with them is judged by everything that follows
+// (further searches against the reference, node dump and lookups unchanged).
+func overwriteResults(c *engine.Ctx, solns [][]byte) string {
+	if len(solns) == 0 {
+		return ""
+	}
+	keep := make([][]byte, len(solns))
+	k := -1
+	for i, w := range solns {
+		keep[i] = append([]byte{}, w...)
+		if k == -1 && len(w) > 0 {
+			k = i
+		}
+	}
+	msg := ""
+	if k >= 0 {
+		full := solns[k][:cap(solns[k])] // the spare capacity is the caller's as well (append)
+		for i := range full {
+			full[i] = '#'
+		}
+		for i, w := range solns {
+			if i != k && !bytes.Equal(w, keep[i]) {
+				msg = fmt.Sprintf("after overwriting result #%d (%q) result #%d reads %q instead of %q", k, keep[k], i, w, keep[i])
+				break
+			}
+		}
+	}
+	for _, w := range solns {
+		for i := range w {
+			w[i] = '#'
+		}
+		if cap(w) > len(w) {
+			w = w[:cap(w)]
+			for i := range w {
+				w[i] = '#'
+			}
+		}
+	}
+	c.Obs("results_overwritten_by_the_caller", 1)
+	return msg
 }
 
 func nontrivialResult(set *refdawg.Set, nres int) bool {
@@ -355,6 +401,15 @@ func exhaustiveOver(c *engine.Ctx, name, alphabet string, maxLen int, extra []st
 					}
 				}
 				c.Obs("searches_with_reused_searchers", len(single))
+				if !bad {
+					for i := range res {
+						if msg := overwriteResults(c, res[i]); msg != "" {
+							c.Violation("Search|results-share-memory|"+witness(set, []refdawg.Query{single[i]}), detail(label, set, []refdawg.Query{single[i]}, map[string]interface{}{"call": callKey}), msg, "independent byte slices")
+							bad = true
+							break
+						}
+					}
+				}
 				if bad {
 					return // later results of the reused searchers would only repeat the finding
 				}
@@ -523,6 +578,11 @@ func searchRounds(c *engine.Ctx, b, other *built, callKey string, qs []refdawg.Q
 		if !judge(c, r.on.label, callKey, r.on, qs, solns, ids, ri > 0, r.name) {
 			return false
 		}
+		nres := len(solns)
+		if msg := overwriteResults(c, solns); msg != "" {
+			c.Violation("Search|results-share-memory|"+witness(r.on.set, qs), detail(r.on.label, r.on.set, qs, map[string]interface{}{"call": callKey, "round": r.name}), msg, "independent byte slices")
+			return false
+		}
 		if ri > 0 {
 			c.Obs("searches_with_reused_searchers", 1)
 		}
@@ -530,8 +590,8 @@ func searchRounds(c *engine.Ctx, b, other *built, callKey string, qs []refdawg.Q
 			c.Obs("searches_on_a_second_dawg", 1)
 		}
 		if ri == 0 {
-			observeQuery(c, b.set, qs, len(solns))
-			if nontrivialResult(b.set, len(solns)) {
+			observeQuery(c, b.set, qs, nres)
+			if nontrivialResult(b.set, nres) {
 				c.NT(b.set.Hash(), refdawg.QueriesString(qs))
 			}
 		}
